@@ -51,6 +51,54 @@ class Box:
             return {"rc": "timeout", "out": out, "err": err}
         return {"rc": p.returncode, "out": out, "err": err}
 
+    def run_traced(self, args, stdin=None, timeout=180):
+        """run under strace and return, besides the usual result, the sequence of creations / removals of the
+        run's own temporary names directly under TMPDIR, in the vocabulary of Model/Cli.v:
+        0 = copy of stdin (plan_stdin_*), 1 = combined file (plan_auto_*), 2 = private output directory (plan_output_*)"""
+        import re
+        tf = os.path.join(self.root, "strace.%d.txt" % len(os.listdir(self.root)))
+        cmd = ["strace", "-f", "-o", tf, "-e", "trace=openat,open,creat,mkdir,mkdirat,rmdir,unlink,unlinkat,rename,renameat,renameat2",
+               common.PY, "-c", "import sys; from scriptplan.cli.plan import main; sys.exit(main())"] + list(args)
+        p = subprocess.Popen(cmd, cwd=self.cwd, env=self.env(), stdin=subprocess.PIPE if stdin is not None else subprocess.DEVNULL,
+                             stdout=subprocess.PIPE, stderr=subprocess.PIPE)
+        try:
+            out, err = p.communicate(stdin, timeout=timeout)
+        except subprocess.TimeoutExpired:
+            p.kill()
+            out, err = p.communicate()
+            return {"rc": "timeout", "out": out, "err": err, "fsops": None}
+        ops, other = [], []
+        kinds = (("plan_stdin_", 0), ("plan_auto_", 1), ("plan_output_", 2))
+        try:
+            lines = open(tf, errors="replace").read().split("\n")
+        except OSError:
+            lines = None
+        if lines is not None:
+            for ln in lines:
+                m = re.search(r'(openat|open|creat|mkdir|mkdirat|rmdir|unlink|unlinkat|rename\w*)\((?:AT_FDCWD, )?"([^"]*)"(.*)\) = (-?\d+)', ln)
+                if not m or int(m.group(4)) < 0:
+                    continue
+                call, path, rest = m.group(1), m.group(2), m.group(3)
+                if os.path.dirname(path) != self.tmp:
+                    continue
+                name = os.path.basename(path)
+                k = next((v for pre, v in kinds if name.startswith(pre)), None)
+                creating = call in ("mkdir", "mkdirat", "creat") or (call in ("open", "openat") and "O_CREAT" in rest)
+                removing = call in ("rmdir", "unlink", "unlinkat")
+                if k is None:
+                    if (creating or removing) and not re.fullmatch(r"[a-z0-9_]{8}", name):
+                        other.append(call + " " + name)        # (8-character names: tempfile's writability probe)
+                    continue
+                if creating and ("C%d" % k) not in ops:
+                    ops.append("C%d" % k)
+                elif removing:
+                    ops.append("R%d" % k)
+        try:
+            os.remove(tf)
+        except OSError:
+            pass
+        return {"rc": p.returncode, "out": out, "err": err, "fsops": None if lines is None else ops, "other_names": other}
+
     def close(self):
         shutil.rmtree(self.root, ignore_errors=True)
 
